@@ -25,7 +25,11 @@ LEVEL_NOTE = (
 def snapshot(s):
     db = s.classdb
     n = len(db.label_to_info)
-    d = dict(classes=[repr(db.get_class(l)) for l in range(n)], empty=list(db.empty_list), tried=sorted(s.tried_to_verify),
+    # emptiness as an answer: the cached value, or - where nothing is cached yet - the class's own answer (asked of the class, not
+    # of the database: a snapshot must not fill caches; `==` on a memory-saving database recomputes rules and may fill them)
+    d = dict(classes=[repr(db.get_class(l)) for l in range(n)],
+             empty=[bool(e) if e is not None else bool(db.get_class(l).is_empty()) for l, e in enumerate(db.empty_list)],
+             tried=sorted(s.tried_to_verify),
              sym=sorted(s.symmetry_expanded), inf=sorted(s.inferral_expanded))
     r = s.ruledb
     if hasattr(r, "rule_to_strategy"):
@@ -161,19 +165,26 @@ class _Enough(Exception):
 
 
 class QueueTap:
-    """proxy of the class queue that logs every work packet handed out: [label, strategies, inferral, expanded?]"""
+    """proxy of the class queue that logs every work packet handed out: [label, strategies, inferral, handled?] where handled
+    means: expanded, or legitimately skipped because the label was verified when the loop came back for the next packet"""
 
-    def __init__(self, q, log, cap=None):
-        self._q, self._log, self._cap = q, log, cap
+    def __init__(self, q, log, searcher, cap=None):
+        self._q, self._log, self._s, self._cap = q, log, searcher, cap
 
     def __iter__(self):
         return self
 
+    def settle(self):
+        if self._log and self._log[-1][3] is None:
+            lbl = self._log[-1][0]
+            self._log[-1][3] = "verified" if (not self._s.expand_verified and self._s.ruledb.is_verified(lbl)) else False
+
     def __next__(self):
+        self.settle()
         if self._cap is not None and len(self._log) >= self._cap:
             raise _Enough()
         item = next(self._q)
-        self._log.append([item[0], tuple(str(x) for x in item[1]), bool(item[2]), False])
+        self._log.append([item[0], tuple(str(x) for x in item[1]), bool(item[2]), None])
         return item
 
     def __getattr__(self, name):
@@ -181,13 +192,13 @@ class QueueTap:
 
 
 def tap(s, cap=None):
-    """log the packets the searcher takes from its queue and whether each one was expanded"""
+    """log the packets the searcher takes from its queue and what became of each"""
     log = []
-    s.classqueue = QueueTap(s.classqueue, log, cap)
+    s.classqueue = QueueTap(s.classqueue, log, s, cap)
     orig = s._expand
 
     def expand(comb_class, label, strategies, inferral):
-        if log and log[-1][0] == label:
+        if log and log[-1][0] == label and log[-1][3] is None:
             log[-1][3] = True
         return orig(comb_class, label, strategies, inferral)
 
@@ -195,32 +206,8 @@ def tap(s, cap=None):
     return log
 
 
-def reference_packets(cfg, cap=600):
-    """the work packets of an uninterrupted search of the same configuration (same tick clock, no limit)"""
-    root, pack, db = specrun.build(cfg)
-    s = CombinatorialSpecificationSearcher(root, pack, ruledb=db, expand_verified=cfg["expand_verified"])
-    specrun.quiet()
-    log = tap(s, cap)
-    real = css_mod.time
-    css_mod.time = LimitClock()
-    st = random.getstate()
-    random.seed(cfg["seed"])
-    try:
-        s.auto_search(perc=cfg["perc"])
-    except (_Enough, SpecificationNotFound):
-        pass
-    except Exception:  # noqa: BLE001  (faults of an uninterrupted search belong to C01/C04)
-        pass
-    finally:
-        css_mod.time = real
-        random.setstate(st)
-        specrun.quiet()
-    return log
-
-
 def time_limit_runs(cfg, limits):
     problems, runs = [], 0
-    ref = reference_packets(cfg)
     for limit in limits:
         root, pack, db = specrun.build(cfg)
         s = CombinatorialSpecificationSearcher(root, pack, ruledb=db, expand_verified=cfg["expand_verified"])
@@ -256,13 +243,14 @@ def time_limit_runs(cfg, limits):
             random.setstate(st)
             specrun.quiet()
         runs += 1
-        # "continues from where it stopped": the packets taken from the queue over all the calls, and whether each was
-        # expanded, are those of the uninterrupted search (the queue's order depends on the applied packets only)
-        m = min(len(ref), len(packets))
-        if interrupted and packets[:m] != ref[:m]:
-            k = next(i for i in range(m) if packets[i] != ref[i])
-            problems.append(("interrupted-search-does-not-continue-where-it-stopped",
-                             f"limit={limit}, interrupted {interrupted} times: packet {k} is {packets[k]} but the uninterrupted search has {ref[k]}"))
+        # "continues from where it stopped": no work packet taken from the queue is lost - each one is expanded, or skipped
+        # because its label is verified (the order of the packets themselves may legitimately depend on when the
+        # specification searches merged equivalence classes, so it is not compared with an uninterrupted run)
+        s.classqueue.settle()
+        lost = [(i, p) for i, p in enumerate(packets) if p[3] is False]
+        if lost:
+            problems.append(("interrupted-search-loses-a-work-packet",
+                             f"limit={limit}, interrupted {interrupted} times: packet {lost[0][0]} {lost[0][1][:3]} was taken from the queue but never expanded"))
         if spec is None:
             continue
         N = 6
